@@ -349,6 +349,133 @@ pub fn rr_outcome(c: &RrCase) -> Outcome {
     o
 }
 
+// --------------------------------------------------------------------------------------------
+// a peer comes back under its announced identity before the sender noticed it had gone
+
+#[derive(Debug, Clone, Serialize, Deserialize, PartialEq, Eq, Hash)]
+pub struct RejoinCase {
+    pub kind: Kind,
+    /// anonymous bystanders in the rotation
+    pub others: usize,
+    /// old connection when the new one joins: 0 = open and idle, 1 = ended (EOF the sender has
+    /// not read), 2 = ended, writes towards it still succeed (a FIN), 3 = its writes failed and
+    /// the sender has noticed and dropped it (its id is left behind in the rotation queue)
+    pub old_state: u8,
+    pub sends: usize,
+}
+
+pub fn rejoin_outcome(c: &RejoinCase) -> Outcome {
+    let mut o = Outcome::new(hash_of(c));
+    o.nontrivial = true;
+    o.class("peer-comes-back-under-its-identity");
+    let c2 = c.clone();
+    let (r, panics) = capture_panics(|| {
+        run_sim(async move {
+            let c = c2;
+            let kind = c.kind;
+            let who = kind.name();
+            let mut f: Vec<Failure> = vec![];
+            let mut sim = Sim::new();
+            let s = sim.socket(kind, None);
+            let old = match crate::simx::attach_raw(&mut sim, s, Some(b"worker-1")).await {
+                Ok((l, _)) => l,
+                Err(e) => {
+                    fail!(f, format!("C10/{}/setup", who), "{}", e);
+                    return f;
+                }
+            };
+            let mut links: Vec<Link> = vec![];
+            for _ in 0..c.others {
+                match crate::simx::attach_raw(&mut sim, s, None).await {
+                    Ok((l, _)) => links.push(l),
+                    Err(e) => {
+                        fail!(f, format!("C10/{}/setup", who), "{}", e);
+                        return f;
+                    }
+                }
+            }
+            if c.old_state == 1 || c.old_state == 2 {
+                old.to_lib.end_after_all(crate::pipe::ReadEnd::Eof);
+            }
+            if c.old_state == 3 {
+                old.from_lib.break_writer(std::io::ErrorKind::BrokenPipe);
+                // a round of sends: the one that hits the dead connection fails and removes it
+                for i in 0..(c.others + 1) {
+                    let before: Vec<usize> = links.iter().map(|l| l.lib_messages_prefix().map(|x| x.0.len()).unwrap_or(0)).collect();
+                    let a = sim.send(s, &[format!("warm-{}", i).into_bytes()]);
+                    let res = sim.run(a).await;
+                    if kind == Kind::Req && matches!(res, Ok(Some(Out::Send(Ok(()))))) {
+                        for (j, l) in links.iter().enumerate() {
+                            if l.lib_messages_prefix().map(|x| x.0.len()).unwrap_or(0) != before[j] {
+                                l.raw_send_now(&[vec![], b"ans".to_vec()]);
+                            }
+                        }
+                        let r = sim.recv(s);
+                        let _ = sim.run(r).await;
+                    }
+                }
+            }
+            let fresh = match crate::simx::attach_raw(&mut sim, s, Some(b"worker-1")).await {
+                Ok((l, _)) => l,
+                Err(e) => {
+                    fail!(f, format!("C10/{}/peer-cannot-come-back-under-its-identity", who), "{}", e);
+                    return f;
+                }
+            };
+            links.push(fresh);
+            // n rounds over the connected peers: every send succeeds, reaches exactly one of
+            // them, in rotation; the replaced connection gets nothing
+            let n = links.len();
+            let old_before = old.lib_traffic_len();
+            let mut hits = vec![0usize; n];
+            for i in 0..c.sends {
+                let before: Vec<usize> = links.iter().map(|l| l.lib_messages_prefix().map(|x| x.0.len()).unwrap_or(0)).collect();
+                let a = sim.send(s, &[format!("job-{}", i).into_bytes()]);
+                match sim.run(a).await {
+                    Ok(Some(Out::Send(Ok(())))) => {}
+                    other => {
+                        fail!(f, format!("C10/{}/send-fails-with-connected-peers", who), "send #{} with {} connected peers: {:?}", i, n, other.map(|o| o.map(|o| o.err_text().map(|s| s.to_string()))));
+                        return f;
+                    }
+                }
+                let grew: Vec<usize> = links.iter().enumerate().filter(|(j, l)| l.lib_messages_prefix().map(|x| x.0.len()).unwrap_or(0) != before[*j]).map(|x| x.0).collect();
+                if grew.len() != 1 {
+                    fail!(
+                        f,
+                        format!("C10/{}/successful-send-reached-no-connected-peer", who),
+                        "send #{} returned Ok; connected peers that received it: {:?} (the connection the returning peer replaced received {} bytes)",
+                        i,
+                        grew,
+                        old.lib_traffic_len() - old_before
+                    );
+                    return f;
+                }
+                hits[grew[0]] += 1;
+                if kind == Kind::Req {
+                    links[grew[0]].raw_send_now(&[vec![], b"ans".to_vec()]);
+                    let r = sim.recv(s);
+                    let _ = sim.run(r).await;
+                }
+            }
+            let (lo, hi) = (hits.iter().min().copied().unwrap_or(0), hits.iter().max().copied().unwrap_or(0));
+            if hi - lo > 1 {
+                fail!(f, format!("C10/{}/rotation-not-strict", who), "{} sends over {} connected peers (the last one came back under its identity): per-peer counts {:?}", c.sends, n, hits);
+            }
+            if old.lib_traffic_len() != old_before {
+                fail!(f, format!("C10/{}/message-written-to-a-replaced-connection", who), "{} bytes", old.lib_traffic_len() - old_before);
+            }
+            f
+        })
+    });
+    if let Some(f) = r {
+        o.failures = f;
+    }
+    for p in panics {
+        o.fail(format!("C10/panic/{}", panic_sig(&p)), p);
+    }
+    o
+}
+
 pub fn gen_rr(s: &mut Src<'_>, max_exp: usize) -> RrCase {
     let kind = s.pick(&[Kind::Push, Kind::Dealer, Kind::Req]);
     let initial_peers = s.pick(&[0usize, 1, 2, 2, 3, 3, 4, 5]);
@@ -380,6 +507,20 @@ pub fn run(ctx: &Ctx) -> (Report, PropertyMeta) {
     let mut report = Report::default();
     let t = ctx.tier;
     // enumerated: n peers x 3n+1 sends, no joins, no windows; then one join after k sends
+    // a peer that comes back under its identity before the sender noticed it had gone
+    {
+        let mut rc = vec![];
+        for kind in [Kind::Push, Kind::Dealer, Kind::Req] {
+            for others in 0..=2usize {
+                for old_state in 0..4u8 {
+                    rc.push(RejoinCase { kind, others, old_state, sends: 3 * (others + 1) });
+                }
+            }
+        }
+        let r = run_cases(ctx, "rejoin", &rc, rejoin_outcome);
+        report.exhaustive_parts.push(format!("PUSH/DEALER/REQ x 0..2 bystanders x a peer with an announced identity coming back while its old connection is idle / ended / ended-but-writable / already dropped after a failed write: {} cases", rc.len()));
+        report.merge(r);
+    }
     let mut cases = vec![];
     use crate::props::c01::{Fill, FrameSpec};
     let m = |lens: &[usize]| MsgCase {
@@ -472,6 +613,7 @@ pub fn run(ctx: &Ctx) -> (Report, PropertyMeta) {
 pub fn replay(_ctx: &Ctx, kind: &str, case: &Value) -> Vec<Failure> {
     match kind {
         "rr" => parse_case::<RrCase>(case).map(|c| rr_outcome(&c).failures),
+        "rejoin" => parse_case::<RejoinCase>(case).map(|c| rejoin_outcome(&c).failures),
         _ => Err(vec![Failure::new("replay/unknown-kind", kind.to_string())]),
     }
     .unwrap_or_else(|e| e)
